@@ -33,11 +33,21 @@ def get_lib(ctx):
     raise vlib.BuildError("library archive vanished repeatedly: %s" % last)
 
 
-def build(ctx):
+def source_variant():
+    """generation tags in the source? (myth_tls_tree_get takes the key allocator; see tools/props/c10.py)"""
+    f = open(os.path.join(vlib.REPO, "src", "myth_tls_func.h"), errors="replace").read()
+    gen = bool(re.search(r"myth_tls_tree_get\s*\([^)]*myth_tls_key_allocator_t", f))
+    m = re.search(r"\nmyth_tls_key_allocator_alloc\s*\(.*?\n}\n", f, re.S)
+    lock = bool(m and "myth_spin_lock_body" in m.group(0))
+    return gen, lock
+
+
+def build(ctx, gen=False, lock=False):
     lib = get_lib(ctx)
     libs = [lib, "-lpthread", "-ldl", "-lrt"]
     unit = vlib.cc(os.path.join(ctx.dir, "c10_tls_unit"), [os.path.join(H, "c10_tls_unit.c")],
-                   flags=vlib.lib_cflags() + ["-O0", "-g", "-I" + H, "-Wl,--wrap=real_malloc", "-Wl,--wrap=real_free"], libs=libs)
+                   flags=vlib.lib_cflags() + ["-O0", "-g", "-I" + H, "-Wl,--wrap=real_malloc", "-Wl,--wrap=real_free",
+                                               "-DC10_GEN=%d" % int(gen), "-DC10_LOCK=%d" % int(lock)], libs=libs)
     libexe = vlib.cc(os.path.join(ctx.dir, "c11_dtor_lib"), [os.path.join(H, "c11_dtor_lib.c")],
                      flags=vlib.lib_cflags() + ["-O0", "-g", "-I" + H], libs=libs)
     drv = vlib.build_driver("C11", "Extract_C11.v", "driver_C11.ml", VF)
@@ -52,8 +62,37 @@ def fini_case(dt, sets):
     return "fini %s %d %s" % (d, len(sets), " ".join("%d %d" % kv for kv in sets))
 
 
+def finib_case(dt, ops):
+    """ops: ("s", k, v) | ("b", k)"""
+    if dt == "all" or dt == "none":
+        d = dt
+    else:
+        d = "list %d %s" % (len(dt), " ".join(map(str, dt)))
+    return "finib %s %d %s" % (d, len(ops), " ".join(" ".join(map(str, o)) for o in ops))
+
+
 def parse_fini(case):
+    """returns (keys with destructor, the stores that are still current at exit)"""
     w = case.split()
+    if w[0] == "finib":
+        i = 1
+        if w[i] == "all":
+            dt = set(range(NK)); i += 1
+        elif w[i] == "none":
+            dt = set(); i += 1
+        else:
+            n = int(w[i + 1]); dt = set(int(x) for x in w[i + 2:i + 2 + n] if 0 <= int(x) < NK); i += 2 + n
+        n = int(w[i]); i += 1
+        cur = {}
+        order = []
+        for _ in range(n):
+            if w[i] == "s":
+                k, v = int(w[i + 1]), int(w[i + 2]); i += 3
+                cur[k] = v; order.append(k)
+            else:
+                k = int(w[i + 1]); i += 2
+                cur.pop(k, None)       # a new incarnation of the index: what was stored belongs to a deleted key
+        return dt, [(k, cur[k]) for k in dict.fromkeys(order) if k in cur]
     i = 1
     if w[i] == "all":
         dt = set(range(NK)); i += 1
@@ -75,9 +114,26 @@ def val(r):
     return r.rng(1, 1 << 62)
 
 
-def gen_unit(ctx, n_random):
+def gen_unit(ctx, n_random, gen=False):
     r = ctx.rng
     cases = list(WITNESSES)
+    if gen:
+        # generation tags: a value left under a deleted incarnation of an index must not reach the destructor
+        cases.append(finib_case("all", [("s", 16, 777), ("b", 16)]))
+        cases.append(finib_case([16], [("s", 16, 777), ("b", 16), ("s", 16, 5)]))
+        cases.append(finib_case([0, 16], [("s", 0, 1), ("s", 16, 2), ("b", 0), ("b", 0), ("b", 1023)]))
+        for k in BOUNDARY:
+            cases.append(finib_case("all", [("s", k, 100 + k), ("s", k ^ 1, 200 + k), ("b", k)]))
+        for _ in range(n_random // 3):
+            keys = [r.below(NK) for _ in range(r.rng(1, 8))] + [r.choice(BOUNDARY)]
+            ops = []
+            for _ in range(r.choice([2, 5, 15, 60])):
+                if r.chance(1, 4):
+                    ops.append(("b", r.choice(keys) if r.chance(4, 5) else r.choice(OOR)))
+                else:
+                    ops.append(("s", r.choice(keys), val(r)))
+            dt = r.choice(["all", sorted(set(k for k in keys if r.chance(1, 2)))])
+            cases.append(finib_case(dt, ops))
     # every single key: with all destructors registered, and with only its own
     for k in range(NK):
         v = r.rng(1, 1 << 40)
@@ -224,7 +280,7 @@ def gen_lib(ctx, quick):
     return cases
 
 
-def run_lib_case(libexe, drv, case):
+def run_lib_case(libexe, drv, case, vline="variant 0 0"):
     """returns (message or None, n_threads, n_calls, disagreements)"""
     W, has, ths = case
     txt = lib_case_text(W, has, ths)
@@ -259,7 +315,8 @@ def run_lib_case(libexe, drv, case):
         if msg:
             return "thread %d (termination kind %d: %s) - %s" % (i, kind, ["return", "myth_exit", "cancel"][kind], msg), len(ths), ncalls, 0, out
         model_cases.append(fini_case(sorted(dt), sets))
-    model, _, _ = vlib.run_lines([drv], model_cases)
+    model, _, _ = vlib.run_lines([drv], [vline] + model_cases)
+    model = model[1:]
     dis = 0
     for i, (kind, s) in enumerate(ths):
         p = parse_out(model[i]) if i < len(model) else None
@@ -279,9 +336,10 @@ def corpus_cases():
 
 def run(ctx):
     broken, log = ctx.prove("Properties_C11.v", "Properties_C11")
-    unit, libexe, drv = build(ctx)
+    gen, lock = source_variant()
+    unit, libexe, drv = build(ctx, gen, lock)
     q = not ctx.thorough
-    cases = ["consts"] + corpus_cases() + gen_unit(ctx, 500 if q else 8000)
+    cases = ["variant %d %d" % (int(gen), int(lock)), "consts"] + corpus_cases() + gen_unit(ctx, 500 if q else 8000, gen)
     impl, rc1, raw1 = vlib.run_lines([unit], cases, timeout=900)
     model, rc2, raw2 = vlib.run_lines([drv], cases, timeout=900)
     diffs = vlib.diff_lines(cases, impl, model)
@@ -289,7 +347,7 @@ def run(ctx):
     ncalls = nnull = nfrees = 0
     sizes = {}
     for i, c in enumerate(cases):
-        if c == "consts":
+        if c == "consts" or c.startswith("variant"):
             continue
         out = impl[i] if i < len(impl) else "<no output>"
         msg = oracle_unit(c, out)
@@ -304,15 +362,15 @@ def run(ctx):
     # does a disagreeing implementation behave like the walk before commit 90cf288?
     old_like = None
     if diffs:
-        dc = [d[1] for d in diffs if d[1].startswith("fini")][:200]
-        oldm, _, _ = vlib.run_lines([drv], [c.replace("fini", "finiold", 1) for c in dc])
-        same = sum(1 for (c, o) in zip(dc, oldm) if o == impl[cases.index(c)])
+        dc = [d[1] for d in diffs if d[1].startswith("fini ")][:200]
+        oldm, _, _ = vlib.run_lines([drv], [cases[0]] + [c.replace("fini", "finiold", 1) for c in dc])
+        same = sum(1 for (c, o) in zip(dc, oldm[1:]) if o == impl[cases.index(c)])
         old_like = (same, len(dc))
 
     lib_fail, lib_threads, lib_calls, lib_dis, nlib = [], 0, 0, 0, 0
     kinds = [0, 0, 0]
     for case in gen_lib(ctx, q):
-        msg, nt, nc, dis, out = run_lib_case(libexe, drv, case)
+        msg, nt, nc, dis, out = run_lib_case(libexe, drv, case, cases[0])
         nlib += 1; lib_threads += nt; lib_calls += nc; lib_dis += dis
         for kind, _ in case[2]:
             kinds[kind] += 1
@@ -321,6 +379,9 @@ def run(ctx):
         elif dis:
             lib_fail.append((lib_case_text(*case), out[-400:], None))
 
+    ctx.cov["variant"] = {"source_has_generation_tags": gen,
+                          "walk": "a slot recorded under another generation than the index' current one is passed as NULL "
+                                  "(C11_stale_not_passed)" if gen else "no generation tags (kg = 0 everywhere)"}
     ctx.cov["correspondence"] = {
         "cases": len(cases), "disagreements": len(diffs) + lib_dis,
         "input_distribution": {"unit_by_number_of_stores": sizes, "single_keys": 2 * NK,
@@ -331,8 +392,8 @@ def run(ctx):
                                 "library_destructor_calls": lib_calls},
         "oracle_failures": len(failing) + sum(1 for x in lib_fail if x[2]), "impl_exit": rc1, "model_exit": rc2}
     ctx.cov["evaluations"] = len(cases) + lib_threads
-    ctx.cov["distinct_nontrivial"] = len(set(cases)) - 1
-    for i in (1, 2, 3, len(cases) // 2, len(cases) - 1):
+    ctx.cov["distinct_nontrivial"] = len(set(cases)) - 2
+    for i in (2, 3, 4, len(cases) // 2, len(cases) - 1):
         ctx.cov["samples"].append({"case": cases[i][:300], "impl": (impl[i] if i < len(impl) else "")[:300],
                                    "model": (model[i] if i < len(model) else "")[:300]})
     ctx.cov["trusted_base"] += [
@@ -373,16 +434,20 @@ def run(ctx):
 
 def replay(ctx, path):
     body = json.load(open(path))
-    unit, libexe, drv = build(ctx)
+    gen, lock = source_variant()
+    unit, libexe, drv = build(ctx, gen, lock)
+    v = "variant %d %d" % (int(gen), int(lock))
     if "case" in body:
         c = body["case"]
-        impl, _, _ = vlib.run_lines([unit], [c])
-        model, _, _ = vlib.run_lines([drv], [c, c.replace("fini", "finiold", 1)])
+        impl, _, _ = vlib.run_lines([unit], [v, c])
+        mc = [v, c] + ([c.replace("fini", "finiold", 1)] if c.startswith("fini ") else [])
+        model, _, _ = vlib.run_lines([drv], mc)
+        print("variant:   ", impl[0] if impl else None, "(generation tags, locked free list)")
         print("case:      ", c[:2000])
-        print("impl:      ", impl[0] if impl else None)
-        print("model:     ", model[0] if model else None)
-        print("old walk:  ", model[1] if len(model) > 1 else None)
-        print("oracle:    ", oracle_unit(c, impl[0] if impl else "<no output>"))
+        print("impl:      ", impl[1] if len(impl) > 1 else None)
+        print("model:     ", model[1] if len(model) > 1 else None)
+        print("old walk:  ", model[2] if len(model) > 2 else None)
+        print("oracle:    ", oracle_unit(c, impl[1] if len(impl) > 1 else "<no output>"))
     elif "lib_case" in body:
         rc, out = vlib.sh([libexe], input=body["lib_case"] + "\n", timeout=120)
         print("library case:", body["lib_case"][:500])
